@@ -11,6 +11,7 @@ From BV Require Import Base.Prelude Model.Block Model.ForkDB Model.Forkable Mode
   Spec.Consumer Spec.Universe Spec.C18_Spec Spec.C18_Moving_Spec
   Proofs.Fk.StoreFacts Proofs.Fk.WalkFacts Proofs.Fk.LoopFacts Proofs.Fk.StoreChange Proofs.Fk.SwitchFacts
   Proofs.Fk.FixedLib Proofs.Fk.MovingLibStore Proofs.Fk.MovingLibWalk Proofs.Fk.MovingLibLoops Proofs.Fk.MovingLibInv.
+From BV Require Spec.C09_Spec Proofs.C09_Proofs.
 Local Open Scope N_scope.
 
 (* ================================================================ (a) walks over a well-formed store *)
@@ -1277,5 +1278,166 @@ Section Lookups.
     { intros x Hx. apply HU0. apply in_or_app. right. right. exact Hx. }
     destruct (HK3 b Hb HKb) as [Hst|Hlt]; [|lia].
     apply found_of_st; [apply (di_inU _ _ _ (i_db _ _ _ _ _ _ HI3)) | exact Hb | exact Hst].
+  Qed.
+
+  (* ---------------------------------------------------------------- blocksFromNum on the retained chain *)
+
+  Lemma seg_of_std (q : list entry) : Forall C09_Spec.seg_std (map seg_of q).
+  Proof. apply Forall_forall. intros x Hx. apply in_map_iff in Hx as (e & <- & _). split; reflexivity. Qed.
+
+  Lemma from_num_shape s Fin S hd p q0 bot ehd : Inv s Fin S -> last_sent s = Some hd ->
+    Shape s Fin S hd p q0 bot ehd ->
+    (forall pre e suf, q0 ++ p = pre ++ e :: suf ->
+       exists evs, Burst.blocks_from_num s (bnum (eb e)) = Burst.BOk evs /\ map eblk evs = map eb (e :: suf)) /\ (forall n, (forall e, In e (q0 ++ p) -> bnum (eb e) <> n) -> Burst.blocks_from_num s n = Burst.BErr).
+  Proof.
+    intros HI Hls Hsh. pose proof (i_db _ _ _ _ _ _ HI) as Hdb.
+    pose proof (segment_of_shape s Fin S hd p q0 bot ehd HI Hsh) as Hcs.
+    split.
+    - intros pre e suf Hq. rewrite C09_Proofs.blocks_from_num_eq, (di_has_lib _ _ _ Hdb), Hls, Hcs. cbn [negb].
+      rewrite Hq, map_app. cbn [map].
+      pose proof (sh_q _ _ _ _ _ _ _ _ Hsh) as Hch. rewrite Hq in Hch.
+      destruct (chain_split_order _ _ _ _ _ _ (wf_of _ Hdb) Hch) as [_ Hbe].
+      rewrite (C09_Proofs.fn_go_hit s hd (bnum (eb e)) (map seg_of pre) (seg_of e) (map seg_of suf)).
+      + cbn [map]. eexists. split; [reflexivity|].
+        change (map eblk (map (C09_Spec.snap_event s hd) (seg_of e :: map seg_of suf)) = map eb (e :: suf)).
+        rewrite C09_Proofs.map_eblk_snap. cbn [map]. rewrite map_map. reflexivity.
+      + replace (map seg_of pre ++ seg_of e :: map seg_of suf) with (map seg_of (pre ++ e :: suf)) by (rewrite map_app; reflexivity).
+        apply seg_of_std.
+      + intros y Hy. apply in_map_iff in Hy as (e1 & <- & He1). cbn [snum seg_of]. specialize (Hbe e1 He1). lia.
+      + reflexivity.
+    - intros n Hn. rewrite C09_Proofs.blocks_from_num_eq, (di_has_lib _ _ _ Hdb), Hls, Hcs. cbn [negb].
+      rewrite C09_Proofs.fn_go_none; [reflexivity|].
+      intros y Hy. apply in_map_iff in Hy as (e1 & <- & He1). cbn [snum seg_of]. apply Hn. exact He1.
+  Qed.
+
+  (* ---------------------------------------------------------------- the clauses of Spec/C18_Moving_Spec.v *)
+
+  Lemma retained_st s c : retained s c <-> st s c.
+  Proof.
+    unfold retained, get_block_by_hash, st. split.
+    - destruct (find (bid c) (store (db s))) as [e|] eqn:F; [intros _; apply find_is_some_in; eauto | discriminate].
+    - intros H. apply find_is_some_in in H as [e He]. rewrite He. reflexivity.
+  Qed.
+
+  Lemma hash_false s id : get_block_by_hash s id = false <-> find id (store (db s)) = None.
+  Proof. unfold get_block_by_hash. destruct (find id (store (db s))); split; congruence. Qed.
+
+  Lemma parent_linked_eq y l : parent_linked y l = linked y l.
+  Proof. reflexivity. Qed.
+
+  Lemma chain_bottom_first (l : list entry) x bot e0 rest : chain l x bot (e0 :: rest) -> bparent (eb e0) = bot.
+  Proof.
+    intros Hc. pose proof (chain_prefix l bot rest x [] e0 Hc) as Hp. cbn [app] in Hp.
+    destruct (chain_snoc_inv _ _ _ [] _ Hp) as (_ & _ & H0). apply chain_nil_inv in H0. exact H0.
+  Qed.
+
+  Lemma head_clause_of s Fin S : Inv s Fin S -> Ext s Fin S -> head_clause s S.
+  Proof.
+    intros HI HE. pose proof (head_is_top s Fin S HI HE) as Hls. unfold head_clause, head_info, head_num.
+    rewrite Hls. destruct S; auto.
+  Qed.
+
+  Lemma window_clause_of s Fin S : Inv s Fin S -> Ext s Fin S -> window_clause kept r0 s S.
+  Proof.
+    intros HI HE. split; [|split].
+    - intros c Hc Hn. apply retained_st. apply (window_stored s Fin S c HI HE Hc Hn).
+    - apply (x_bound _ _ _ HE).
+    - destruct (di_coh _ _ _ (i_db _ _ _ _ _ _ HI)) as (_ & _ & _ & H & _). exact H.
+  Qed.
+
+  (* the retained chain of the head, declaratively *)
+  Lemma retained_chain_of s Fin S hd p q0 bot ehd : Inv s Fin S -> last_sent s = Some hd ->
+    Shape s Fin S hd p q0 bot ehd ->
+    exists e0 rest, q0 ++ p = e0 :: rest /\ bparent (eb e0) = bot /\ retained_chain s (map eb (q0 ++ p)).
+  Proof.
+    intros HI Hls Hsh. destruct (lowest_of_shape s Fin S hd p q0 bot ehd HI Hls Hsh) as (e0 & rest & Hq & _).
+    pose proof (sh_q _ _ _ _ _ _ _ _ Hsh) as Hch.
+    assert (Hb : bparent (eb e0) = bot) by (rewrite Hq in Hch; apply (chain_bottom_first _ _ _ _ _ Hch)).
+    exists e0, rest. split; [exact Hq|]. split; [exact Hb|].
+    assert (Hgoal : forall seg x0 X', seg = x0 :: X' ->
+              (last_sent s = Some (last seg x0) /\ parent_linked (bparent x0) seg /\
+               Forall (stored_block s) seg /\ get_block_by_hash s (bparent x0) = false) -> retained_chain s seg)
+      by (intros seg x0 X' -> H; exact H).
+    apply (Hgoal _ (eb e0) (map eb rest)); [rewrite Hq; reflexivity|].
+    split; [|split; [|split]].
+    - rewrite Hls. f_equal.
+      destruct (@exists_last _ (q0 ++ p)) as (q' & z & Q); [rewrite Hq; discriminate|]. rewrite Q in Hch |- *.
+      destruct (chain_top _ _ _ _ _ Hch) as [Hf _]. rewrite (sh_hd _ _ _ _ _ _ _ _ Hsh) in Hf. injection Hf as <-.
+      rewrite map_app. cbn [map]. rewrite last_last. symmetry. apply (sh_ehd _ _ _ _ _ _ _ _ Hsh).
+    - rewrite parent_linked_eq, Hb. apply (chain_linked _ _ _ _ Hch).
+    - apply Forall_forall. intros x Hx. apply in_map_iff in Hx as (e & <- & He). exists e. split; [|reflexivity].
+      apply (chain_keys_in _ _ _ _ _ Hch He).
+    - rewrite Hb. apply hash_false. apply (sh_bot _ _ _ _ _ _ _ _ Hsh).
+  Qed.
+
+  Lemma retained_chain_unique s Fin S hd p q0 bot ehd seg : Inv s Fin S -> last_sent s = Some hd ->
+    Shape s Fin S hd p q0 bot ehd -> retained_chain s seg -> seg = map eb (q0 ++ p).
+  Proof.
+    intros HI Hls Hsh Hr. destruct seg as [|x0 X'] eqn:ES; [destruct Hr|]. rewrite <- ES in *.
+    assert (Hr' : last_sent s = Some (last seg x0) /\ parent_linked (bparent x0) seg /\ Forall (stored_block s) seg /\ get_block_by_hash s (bparent x0) = false).
+    { rewrite ES in Hr |- *. exact Hr. }
+    destruct Hr' as (Hl & Hlk & Hst & Hpar). rewrite Hls in Hl. injection Hl as Hl.
+    symmetry. apply (retained_is_shape s Fin S hd p q0 bot ehd seg x0 X' HI Hsh ES (eq_sym Hl)).
+    - rewrite <- parent_linked_eq. exact Hlk.
+    - rewrite Forall_forall in Hst. exact Hst.
+    - apply hash_false. exact Hpar.
+  Qed.
+
+  Lemma canonical_clause_of s Fin S : Inv s Fin S -> Ext s Fin S -> canonical_clause kept s S.
+  Proof.
+    intros HI HE. unfold canonical_clause. cbv zeta.
+    assert (Hst : forall c, (forall c', In c' S -> bnum c <= bnum c' -> retained s c') ->
+                            (forall c', In c' S -> bnum c <= bnum c' -> st s c')).
+    { intros c H c' Hc' Hle. apply retained_st. apply H; assumption. }
+    split; [|split; [|split; [|split; [|split; [|split]]]]].
+    - intros c Hc Hn. split; [apply retained_st; apply (window_stored s Fin S c HI HE Hc Hn)|].
+      apply (canonical_window s Fin S c HI HE Hc Hn).
+    - intros c Hc H. apply (canonical_hit s Fin S c HI HE Hc (Hst c H)).
+    - intros c2 n. apply (canonical_gap s Fin S c2 n HI HE).
+    - intros top S' n. apply (canonical_above s Fin S top S' n HI HE).
+    - intros lo n. apply (canonical_under_lowest s Fin S lo n HI HE).
+    - intros -> n. pose proof (head_is_top s Fin [] HI HE) as Hls. unfold canonical_block_at. rewrite Hls. reflexivity.
+    - intros seg x0 n Hr Hx0.
+      destruct (last_sent s) as [hd|] eqn:Hls.
+      2:{ destruct seg; [destruct Hr | destruct Hr as (H & _); congruence]. }
+      destruct (shape_of s Fin S hd HI HE Hls) as (p & q0 & bot & ehd & Hsh).
+      pose proof (retained_chain_unique s Fin S hd p q0 bot ehd seg HI Hls Hsh Hr) as Hseg.
+      destruct (retained_chain_of s Fin S hd p q0 bot ehd HI Hls Hsh) as (e0 & rest & Hq & Hb & _).
+      rewrite (canonical_walk s Fin S hd p q0 bot ehd n HI Hls Hsh).
+      rewrite Hseg, Hq in Hx0. cbn in Hx0. injection Hx0 as <-.
+      rewrite Hb, Hseg, map_rev. reflexivity.
+  Qed.
+
+  Lemma lowest_clause_of s Fin S : Inv s Fin S -> Ext s Fin S -> lowest_clause s S.
+  Proof.
+    intros HI HE. pose proof (head_is_top s Fin S HI HE) as Hls.
+    assert (Hst : forall c, (forall c', In c' S -> bnum c <= bnum c' -> retained s c') ->
+                            (forall c', In c' S -> bnum c <= bnum c' -> st s c')).
+    { intros c H c' Hc' Hle. apply retained_st. apply H; assumption. }
+    split; [|split].
+    - intros ->. unfold lowest_block_num. rewrite Hls. reflexivity.
+    - intros HS. destruct S as [|hd S'] eqn:ES; [contradiction|]. rewrite <- ES in *.
+      destruct (shape_of s Fin S hd HI HE Hls) as (p & q0 & bot & ehd & Hsh).
+      destruct (retained_chain_of s Fin S hd p q0 bot ehd HI Hls Hsh) as (e0 & rest & Hq & Hb & Hret).
+      destruct (lowest_of_shape s Fin S hd p q0 bot ehd HI Hls Hsh) as (e0' & rest' & Hq' & Hlow).
+      rewrite Hq in Hq'. injection Hq' as <- <-.
+      destruct (from_num_shape s Fin S hd p q0 bot ehd HI Hls Hsh) as [Hserve Herr].
+      exists (map eb (q0 ++ p)), (eb e0).
+      split; [exact Hret|]. split; [rewrite Hq; reflexivity|].
+      split; [intros seg' Hr'; apply (retained_chain_unique s Fin S hd p q0 bot ehd seg' HI Hls Hsh Hr')|].
+      split; [exact Hlow|]. split; [|split].
+      + intros pre x suf Hsplit.
+        apply map_eq_app in Hsplit as (qpre & qrest & Hqs & Hpre & Hrest).
+        destruct qrest as [|e qsuf]; [discriminate|]. cbn [map] in Hrest. injection Hrest as Hex Hsuf.
+        destruct (Hserve qpre e qsuf Hqs) as (evs & Hrun & Hm). exists evs. rewrite <- Hex. split; [exact Hrun|].
+        rewrite Hm. cbn [map]. rewrite Hsuf. reflexivity.
+      + intros n Hn. apply Herr. intros e He. apply Hn. apply in_map. exact He.
+      + intros c Hc Hall.
+        destruct (stack_block_on_chain s Fin S hd p q0 bot ehd c HI HE Hls Hsh Hc (Hst c Hall)) as (qq & ec & E' & X1 & Hqq & Hec & _).
+        split.
+        * rewrite Hqq, map_app. apply in_or_app. right. left. exact Hec.
+        * destruct (lowest_le_stack s Fin S c HI HE Hc (Hst c Hall)) as (lo & Hlo & Hle).
+          rewrite Hlow in Hlo. injection Hlo as <-. exact Hle.
+    - intros c Hc Hall Hpar. apply (lowest_of_stack s Fin S c HI HE Hc (Hst c Hall)). apply hash_false. exact Hpar.
   Qed.
 End Lookups.
